@@ -62,6 +62,34 @@ func c03(c *Ctx) {
 	c03Acceptance(c)
 	// the sender (any caller's goroutine) and the receive loop run the envelope code at the same time, and nothing
 	// serialises a send against a receive: scratch space shared through a package variable mixes the two key derivations
+	// the plaintext the envelope parser reads is what the cipher produced: Decrypt hands back the block loop's output
+	// whole (a trimmed plaintext loses body bytes that happen to be zero), and DeserializeEncrypted parses that value
+	r.Rule("R03.V", "ige.Decrypt returns the buffer the block loop filled, whole (= R05.V filed under C03), and the decoder of the inner header in DeserializeEncrypted is built over that result itself", 2)
+	c.resultIsLoopOutput("R03.V", "Decrypt")
+	if f := c.fn("R03.V", load.MsgPkg, "", "DeserializeEncrypted"); f != nil {
+		var plain ssa.Value
+		for _, cs := range an.Calls(f) {
+			if cs.Name == load.IgePkg+".Decrypt" {
+				for _, ref := range *cs.Instr.(ssa.Value).Referrers() {
+					if ex, ok := ref.(*ssa.Extract); ok && ex.Index == 0 {
+						plain = ex
+					}
+				}
+			}
+		}
+		n := 0
+		okAll := plain != nil
+		for _, cs := range an.Calls(f) {
+			if cs.Name != "bytes.NewBuffer" {
+				continue
+			}
+			n++
+			if n == 2 && cs.Common.Args[0] != plain {
+				okAll = false
+			}
+		}
+		r.Check(okAll && n >= 2, "R03.V", "reader:parses-the-cipher-output", c.pos(f.Pos()), sprintf("%d buffers built in DeserializeEncrypted; the second one (inner header and body) is built over the value ige.Decrypt returned", n))
+	}
 	r.Rule("R03.B", "no function of packages messages and utils writes through a []byte parameter (the key, the packet, the body belong to the caller; the key is used for every later message)", 4)
 	c.paramsUntouched("R03.B", load.MsgPkg, nil)
 	c.paramsUntouched("R03.B", load.UtilsPkg, nil)
